@@ -339,8 +339,9 @@ theorem uncovered_request_returns_nothing {K : Type} [Add K] [Sub K] [Mul K] [Di
     (e : EquivRec) (hf : findEquiv reg name = some e) (hne : u.dim ≠ target.dim)
     (hun : u.dim ∉ e.dims ∨ target.dim ∉ e.dims) :
     convertValue pr pre t reg consts params m u xv target (some name) = .error .InvalidUnitEquivalence := by
-  unfold convertValue
+  unfold convertValue convertState
   rw [(uncovered_request_raises reg m u.dim target.dim name e hf hne hun).2]
+  rfl
 
 /-- an unknown equivalence name is a `KeyError` (after the same-dimension shortcut) -/
 theorem unknown_equivalence_raises (reg : List EquivRec) (m : Mode) (xdim tdim : Dim) (name : String)
@@ -395,14 +396,22 @@ theorem convertValue_si {K : Type} [Lean.Grind.Field K] [BEq K] [LawfulBEq K] [R
     (h : convertValue pr pre t reg consts supplied m u xv target eqv = .ok v) :
     toBase target.scale target.offset v
       = f.eval (mkEnv consts (effectiveParams reg eqv supplied) (toBase u.scale u.offset xv)) := by
-  unfold convertValue at h
+  unfold convertValue convertState at h
   simp only [hroute] at h
   by_cases h1 : acceptsParams reg eqv (supplied.map (·.1)) = true
   · by_cases h2 : (f.atoms.all (bound consts (effectiveParams reg eqv supplied))) = true
     · have h3 : (u.offset != 0) = false := by simp [hu]
       simp only [h1, h2, h3, Bool.not_true, Bool.false_and, Bool.false_eq_true, if_false] at h
+      replace h : Except.map (fun x => x.1)
+          (inUnits pre t ⟨UExpr.one, 1, 0, target.dim, true⟩
+            (f.eval (mkEnv consts (effectiveParams reg eqv supplied) (xv * u.scale))) target) = .ok v := by
+        cases m
+        · exact h
+        · simp only [] at h
+          rw [convertToUnits_eq_inUnits] at h
+          exact h
       have hd : ((target.dim != target.dim) = false) := by simp
-      simp only [toValue, inUnits, getConversionFactor, hd, ht, Bool.false_eq_true, if_false,
+      simp only [inUnits, getConversionFactor, hd, ht, Bool.false_eq_true, if_false,
         beq_self_eq_true, Bool.and_self, if_true, Except.map, applyFactor] at h
       injection h with h
       subst h
@@ -410,8 +419,8 @@ theorem convertValue_si {K : Type} [Lean.Grind.Field K] [BEq K] [LawfulBEq K] [R
       have e1 : u.scale * (xv - 0) = xv * u.scale := by grind
       rw [e1]
       grind
-    · simp [h1, h2] at h
-  · simp [h1] at h
+    · simp [h1, h2, Except.map] at h
+  · simp [h1, Except.map] at h
 
 /-- an input on an offset scale is refused (no number is produced) whenever the chain touches
     the input with multiply / divide / subtract / add — or with power / sqrt in a library whose
@@ -423,17 +432,17 @@ theorem offset_input_refused {K : Type} [Add K] [Sub K] [Mul K] [Div K] [OfNat K
     (hroute : inUnitsRoute reg m u.dim target.dim eqv = .ok (.via f))
     (hx : (f.xInArith || (pr.isSome && f.xInPow)) = true) (ho : (u.offset != 0) = true) (v : K) :
     convertValue pr pre t reg consts supplied m u xv target eqv ≠ .ok v := by
-  unfold convertValue
+  unfold convertValue convertState
   simp only [hroute]
   by_cases h1 : acceptsParams reg eqv (supplied.map (·.1)) = true
   · by_cases h2 : (f.atoms.all (bound consts (effectiveParams reg eqv supplied))) = true
     · by_cases h3 : f.xInArith = true
-      · simp [h1, h2, ho, h3]
+      · simp [h1, h2, ho, h3, Except.map]
       · have h4 : (pr.isSome && f.xInPow) = true := by simpa [h3] using hx
         simp only [Bool.and_eq_true] at h4
-        simp [h1, h2, ho, h3, h4.1, h4.2]
-    · simp [h1, h2]
-  · simp [h1]
+        simp [h1, h2, ho, h3, h4.1, h4.2, Except.map]
+    · simp [h1, h2, Except.map]
+  · simp [h1, Except.map]
 
 /-- every chain of every equivalence except `effective_temperature` touches its input with
     multiply / divide / subtract, in both modes -/
@@ -562,14 +571,27 @@ theorem C09_offset_fails_if_pow_accepts : ¬ C09_offset_full none := by
 
 end counterexample
 
-/-- the status of the clause for the library being checked follows the regenerated probe
-    `Generated.powRefuses` (what `np.power` does with 1 °C): the full statement holds exactly when
-    `power` refuses offset units.  (On unyt as pinned the probe is `none`: the clause fails, finding
-    `offset-input|effective_temperature|…`; after a `Unit.__pow__` refusal is applied it holds.) -/
+/-- the status of the clause follows the probe: the full statement holds exactly when `power`
+    refuses offset units -/
 theorem C09_offset_status :
     (∀ err, powRefuses = some err → C09_offset_full powRefuses)
     ∧ (powRefuses = none → ¬ C09_offset_full powRefuses) :=
   ⟨fun err h => h ▸ C09_offset_holds_if_pow_refuses err, fun h => h ▸ C09_offset_fails_if_pow_accepts⟩
+
+/-- obligation on the regenerated probe (`np.multiply(k, np.power(1 °C, 4))` run by the translator
+    on the tree being checked): a power of a reading on an offset scale is refused, by `power`
+    itself or by the multiply applied to it.  True since unyt's `fix:`
+    "Unit.__pow__ refusal" (811ae19); a tree in which the probe returns a number breaks this
+    obligation (and `C09_offset_fails_if_pow_accepts` says what then goes wrong, with the input the
+    harness replays). -/
+theorem table_pow_refuses_offset : powRefuses.isSome = true := by decide +kernel
+
+/-- the offset clause at full strength for the library being checked: a reading on an offset
+    temperature scale is never silently converted as if it were absolute -/
+theorem C09_offset_holds : C09_offset_full powRefuses := by
+  cases h : powRefuses with
+  | none => have := table_pow_refuses_offset; simp [h] at this
+  | some err => exact C09_offset_holds_if_pow_refuses err
 
 /-! ### in-place requests versus copying requests, at the level of the numbers -/
 
@@ -580,20 +602,28 @@ theorem table_inplace_syntactic :
       e.modeFormula .inplace p.1 p.2 == e.modeFormula .copy p.1 p.2)) = true := by
   decide +kernel
 
-/-- `convert_to_equivalent` / `convert_to_units(equivalence=)` yield what `to_equivalent` / `to`
-    yield: every covered request, every unit spelling, value and keyword, on every carrier -/
+/-- `convert_to_equivalent` / `convert_to_units(equivalence=)` leave in the array the reading and
+    the unit label `to_equivalent` / `to` return: every covered request, every unit spelling, value
+    and keyword, on every carrier.  In the model the two entry points differ in two places: the chain
+    (`modeFormula .inplace` = what the recorded `out=x` chain leaves in the buffer, `.copy` = what the
+    recorded copy chain returns) and the last step (`convertToUnits`, the in-place state update, vs
+    `inUnits`). -/
 def C09_inplace_full : Prop :=
   ∀ e ∈ equivalences, ∀ (a b : Dim), a ∈ e.dims → b ∈ e.dims → a ≠ b →
     ∀ (K : Type) [Add K] [Sub K] [Mul K] [Div K] [OfNat K 0] [OfNat K 1] [BEq K] [RPow K]
       [HasSqrt K] [OfRat K] [OfBits K] (pr : Option Err)
       (pre : Prefixes K) (t : Lut K) (consts supplied : List (String × K)) (u target : UnitV K)
       (xv : K), u.dim = a → target.dim = b →
-        convertValue pr pre t equivalences consts supplied .inplace u xv target (some e.name)
-          = convertValue pr pre t equivalences consts supplied .copy u xv target (some e.name)
+        convertState pr pre t equivalences consts supplied .inplace u xv target (some e.name)
+          = convertState pr pre t equivalences consts supplied .copy u xv target (some e.name)
 
-/-- it holds (full strength; before the `fix:` to the `out=` post-multiplication of
-    `unyt_array.__array_ufunc__` it needed the guard "the input's unit expression does not
-    simplify to a coefficient") -/
+/-- it holds.  What carries it: the kernel-decided `table_inplace_syntactic` / `table_inplace`
+    over the regenerated chains (the content that depends on unyt's source: a chain that aliases
+    its own input, drops an `out=`, or diverges from the copy chain fails there) and the agreement
+    of the two final steps (`convertToUnits_eq_inUnits`).  The rest of `convertState` is shared by
+    both modes by construction of the hand model, so this theorem adds nothing about what else
+    `convert_to_equivalent` does to the array (dtype, `name`, views) — that is the direct oracle's
+    and the correspondence's job. -/
 theorem C09_inplace_holds : C09_inplace_full := by
   intro e he a b ha hb hab K _ _ _ _ _ _ _ _ _ _ _ pr pre t consts supplied u target xv hua htb
   obtain ⟨f, hrf, hmf⟩ := covered_request_converts e he .copy a b ha hb hab
@@ -608,8 +638,42 @@ theorem C09_inplace_holds : C09_inplace_full := by
     rw [hmg, hmf] at h3
     injection h3
   subst hfg hua htb
-  unfold convertValue
-  simp only [inUnitsRoute, hrf, hrg]
+  unfold convertState
+  simp only [inUnitsRoute, hrf, hrg, convertToUnits_eq_inUnits]
+
+/-- same-dimension requests too: `convert_to_units(u, equivalence=…)` / `convert_to_equivalent`
+    agree with `to` / `to_equivalent` when the equivalence is not consulted -/
+theorem inplace_equals_copy_same_dimension {K : Type} [Add K] [Sub K] [Mul K] [Div K] [OfNat K 0]
+    [OfNat K 1] [BEq K] [RPow K] [HasSqrt K] [OfRat K] [OfBits K] (pr : Option Err)
+    (pre : Prefixes K) (t : Lut K) (reg : List EquivRec) (consts supplied : List (String × K))
+    (u target : UnitV K) (xv : K) (name : String) (hd : u.dim = target.dim) :
+    convertState pr pre t reg consts supplied .inplace u xv target (some name)
+      = convertState pr pre t reg consts supplied .copy u xv target (some name) := by
+  unfold convertState
+  simp only [inUnitsRoute, hd, same_dimension_is_plain, convertToUnits_eq_inUnits]
+
+/-! ### `Unit.has_equivalent` / `list_equivalencies` -/
+
+/-- `Unit.has_equivalent(name)` answers by the reference: for each of the nine equivalences and
+    *every* dimension, the regenerated registry says "member" exactly when the hand-written
+    reference lists the dimension (hence `list_equivalencies` prints exactly the reference's rows) -/
+theorem has_equivalent_matches_reference (r : String × List Dim) (hr : r ∈ Ref.C09.registry) (d : Dim) :
+    hasEquivalent equivalences d r.1 = .ok (r.2.contains d) := by
+  have h1 := table_registry
+  unfold Ref.C09.registryOk at h1
+  rw [List.all_eq_true] at h1
+  have h2 := h1 r hr
+  unfold hasEquivalent
+  cases he : findEquiv equivalences r.1 with
+  | none => simp [he] at h2
+  | some e =>
+    simp only [he] at h2
+    simp only [contains_of_sameDims h2 d]
+
+/-- an unknown name is a `KeyError` -/
+theorem has_equivalent_unknown (reg : List EquivRec) (d : Dim) (name : String)
+    (h : findEquiv reg name = none) : hasEquivalent reg d name = .error .KeyError := by
+  simp [hasEquivalent, h]
 
 /-! ### the property at full strength -/
 
